@@ -371,6 +371,15 @@ func runC20(ctx *Ctx) *Result {
 			res.Stats["shards_cut_short_by_leak"]++
 			break
 		}
+		total := 0
+		for _, n := range seenClause {
+			total += n
+		}
+		if total >= 6 {
+			// the verdict is settled; violating cases cost seconds each (they end in watchdog waits)
+			res.Stats["shards_cut_short_after_violations"]++
+			break
+		}
 	}
 	for k, n := range seenClause {
 		res.Stats["violations_"+k] = n
